@@ -52,6 +52,8 @@ public:
 
   Buffer& operator=(const Buffer& other)
   {
+    if(&other == this)
+      return *this;
     usize size = other.bufferEnd - other.bufferStart;
     if(size > _capacity)
     {
